@@ -1,0 +1,93 @@
+//go:build verif
+
+package storage
+
+import (
+	"fmt"
+
+	"github.com/MixinNetwork/mixin/common"
+	"github.com/MixinNetwork/mixin/crypto"
+	"github.com/dgraph-io/badger/v4"
+)
+
+// Verification hooks (add-only, build tag verif): thin exported wrappers over
+// the unexported node-state and custodian writers/readers of this package.
+
+// VerifC11WriteNodeOp runs the real lifecycle writer for one membership operation
+// (PLEDGE, ACCEPT, CANCEL, REMOVE) in its own read-write transaction.
+func (s *BadgerStore) VerifC11WriteNodeOp(op string, signer, payee crypto.Key, tx crypto.Hash, timestamp uint64, genesis bool) error {
+	return s.snapshotsDB.Update(func(txn *badger.Txn) error {
+		switch op {
+		case "PLEDGE":
+			return writeNodePledge(txn, signer, payee, tx, timestamp)
+		case "ACCEPT":
+			return writeNodeAccept(txn, signer, payee, tx, timestamp, genesis)
+		case "CANCEL":
+			return writeNodeCancel(txn, signer, payee, tx, timestamp)
+		case "REMOVE":
+			return writeNodeRemove(txn, signer, payee, tx, timestamp)
+		}
+		return fmt.Errorf("unknown node operation %s", op)
+	})
+}
+
+// VerifC11PutNodeRecord stores one node-state record with the package's own key
+// and value builders, without the lifecycle preconditions.
+func (s *BadgerStore) VerifC11PutNodeRecord(signer, payee crypto.Key, tx crypto.Hash, timestamp uint64, state string) error {
+	return s.snapshotsDB.Update(func(txn *badger.Txn) error {
+		return txn.Set(nodeStateQueueKey(signer, timestamp), nodeEntryValue(payee, tx, state))
+	})
+}
+
+// VerifC11WriteCustodian stores the transaction body and records it as the
+// custodian update effective at timestamp, through writeCustodianNodes.
+func (s *BadgerStore) VerifC11WriteCustodian(ver *common.VersionedTransaction, timestamp uint64, genesis bool) error {
+	return s.snapshotsDB.Update(func(txn *badger.Txn) error {
+		err := writeTransaction(txn, ver)
+		if err != nil {
+			return err
+		}
+		utxo := &common.UTXOWithLock{UTXO: common.UTXO{Input: common.Input{Hash: ver.PayloadHash()}}}
+		return writeCustodianNodes(txn, timestamp, utxo, ver.Extra, genesis)
+	})
+}
+
+// VerifC11PutCustodianRecord points the custodian history at timestamp to an
+// arbitrary transaction hash (whose body may or may not be stored).
+func (s *BadgerStore) VerifC11PutCustodianRecord(hash crypto.Hash, timestamp uint64) error {
+	return s.snapshotsDB.Update(func(txn *badger.Txn) error {
+		return txn.Set(graphCustodianUpdateKey(timestamp), hash[:])
+	})
+}
+
+// VerifC11PutTransaction stores a transaction body only.
+func (s *BadgerStore) VerifC11PutTransaction(ver *common.VersionedTransaction) error {
+	return s.snapshotsDB.Update(func(txn *badger.Txn) error {
+		return writeTransaction(txn, ver)
+	})
+}
+
+// VerifC11ReadCustodianNoCache is ReadCustodian with the in-memory cache bypassed.
+func (s *BadgerStore) VerifC11ReadCustodianNoCache(ts uint64) (*common.CustodianUpdateRequest, error) {
+	txn := s.snapshotsDB.NewTransaction(false)
+	defer txn.Discard()
+	return readCustodianAccount(txn, ts, nil)
+}
+
+// VerifC11CustodianCacheSize counts the entries of the custodian cache.
+func (s *BadgerStore) VerifC11CustodianCacheSize() int {
+	n := 0
+	s.custodians.Range(func(_, _ any) bool { n++; return true })
+	return n
+}
+
+// VerifC11DropAll empties both databases and the custodian cache so one store can
+// serve many independent histories.
+func (s *BadgerStore) VerifC11DropAll() error {
+	s.custodians.Clear()
+	err := s.snapshotsDB.DropAll()
+	if err != nil {
+		return err
+	}
+	return s.cacheDB.DropAll()
+}
